@@ -233,14 +233,18 @@ theorem cleanup_lock_held_by_running_process (h0 : Init c₀) (hr : Reachable cs
     ∃ (i : Nat) (t : CTh Th), c.th[i]? = some t ∧ t.dead = false ∧ t.inner.pid = p :=
   (Inv.reachable h0 hr).holder p hl
 
-/-- "the others are told so": a cleaner that finds the lock taken ends with `AnotherInstanceIsCleaningUpTheNode` or
-`ResourcesAlreadyCleanedUp`, and changes nothing -/
-theorem contended_cleaner_is_told {fs fs' : FS} {t t' : Th} {s : String} (hpc : t.pc = 24) (hl : fs.ol.lockedByOther t.pid = true)
-    (h : cleanerStep fs t = some (fs', t', s)) :
-    fs' = fs ∧ t'.pc = pcDone ∧ (t'.res = some .anotherInstance ∨ t'.res = some .alreadyCleanedUp) := by
-  unfold cleanerStep at h
-  simp only [hpc, hl, if_true] at h
-  split at h <;> simp only [Option.some.injEq, Prod.mk.injEq] at h <;> obtain ⟨rfl, rfl, _⟩ := h <;> simp
+/-- "the others are told so": a cleaner that finds the lock taken (`F_SETLK` = EAGAIN, then the link-count check of `try_lock`)
+ends with `AnotherInstanceIsCleaningUpTheNode` or `ResourcesAlreadyCleanedUp`, and changes nothing -/
+theorem contended_cleaner_is_told {fs fs1 fs2 fs2' : FS} {t t1 t2 : Th} {s1 s2 : String} (hpc : t.pc = 24)
+    (hl : fs.ol.lockedByOther t.pid = true) (h1 : cleanerStep fs t = some (fs1, t1, s1)) (h2 : cleanerStep fs2 t1 = some (fs2', t2, s2)) :
+    fs1 = fs ∧ fs2' = fs2 ∧ t2.pc = pcDone ∧ (t2.res = some .anotherInstance ∨ t2.res = some .alreadyCleanedUp) := by
+  unfold cleanerStep at h1
+  simp only [hpc, hl, if_true] at h1
+  simp only [Option.some.injEq, Prod.mk.injEq] at h1
+  obtain ⟨rfl, rfl, _⟩ := h1
+  unfold cleanerStep at h2
+  simp only [] at h2
+  split at h2 <;> simp only [Option.some.injEq, Prod.mk.injEq] at h2 <;> obtain ⟨rfl, rfl, _⟩ := h2 <;> simp
 
 /-
 FALSE as stated ("exactly one performs the cleanup"): over a whole history two cleaners can both acquire the clean-up, one
